@@ -175,8 +175,11 @@ CXX = ["g++", "-std=c++17", "-O1", "-g", "-fno-access-control", "-Wno-invalid-of
        "-I" + HARN, "-I" + REPO, "-I" + os.path.join(REPO, "gmlc"), "-pthread"]
 
 
-def build_client(name, extra_flags=(), tag=""):
+def build_client(name, extra_flags=(), tag="", tap=False):
     """returns (path or None, compiler output)"""
+    if tap:
+        extra_flags = tuple(extra_flags) + ("-fsanitize=thread",)
+        tag = tag + "-tap"
     src = os.path.join(HARN, "clients", name + ".cpp")
     deps = [src] + [os.path.join(HARN, f) for f in sorted(os.listdir(HARN)) if f.endswith((".hpp", ".cpp"))]
     key = tree_hash(deps) + tag
@@ -192,8 +195,29 @@ def build_client(name, extra_flags=(), tag=""):
             if rc != 0:
                 return None, out
             os.rename(rt + ".tmp", rt)
-        cmd = CXX + list(extra_flags) + ["-include", os.path.join(HARN, "vshim.hpp"), src, rt, "-o", exe + ".tmp"]
-        rc, out = sh(cmd, timeout=600)
+        objs = [rt]
+        if tap:
+            tp = os.path.join(d, "vtap-%s.o" % tree_hash([os.path.join(HARN, "vtap.cpp"), os.path.join(HARN, "vrt.hpp")]))
+            if not os.path.exists(tp):
+                rc, out = sh(["g++", "-std=c++17", "-O1", "-g", "-c", os.path.join(HARN, "vtap.cpp"), "-o", tp + ".tmp"])
+                if rc != 0:
+                    return None, out
+                os.rename(tp + ".tmp", tp)
+            objs.append(tp)
+            # compile with TSan instrumentation, link WITHOUT the TSan runtime (vtap.o provides the hooks)
+            obj = exe + ".o"
+            rc, out = sh(CXX + list(extra_flags) + ["-include", os.path.join(HARN, "vshim.hpp"), "-c", src, "-o", obj], timeout=600)
+            if rc != 0:
+                return None, out
+            cmd = ["g++", obj] + objs + ["-o", exe + ".tmp", "-pthread"]
+            rc, out = sh(cmd, timeout=600)
+            try:
+                os.remove(obj)
+            except OSError:
+                pass
+        else:
+            cmd = CXX + list(extra_flags) + ["-include", os.path.join(HARN, "vshim.hpp"), src] + objs + ["-o", exe + ".tmp"]
+            rc, out = sh(cmd, timeout=600)
         if rc != 0:
             return None, out
         os.rename(exe + ".tmp", exe)
@@ -335,7 +359,7 @@ def explore(prop, tier, seed, comp_names, t0):
     problems = []
     for cname in comp_names:
         c = COMPONENTS[cname]
-        exe, out = build_client(c["client"], tuple(c.get("flags", ())))
+        exe, out = build_client(c["client"], tuple(c.get("flags", ())), tap=c.get("tap", False))
         if exe is None:
             problems.append(dict(kind="build", component=cname, detail=out[-3000:], run=None))
             continue
@@ -543,7 +567,7 @@ def do_replay(prop, path):
         return run_check(prop, "quick", 1)
     comp = rp["component"] if "component" in rp else PROPS[prop]["components"][0]
     c = COMPONENTS[comp]
-    exe, out = build_client(c["client"], tuple(c.get("flags", ())))
+    exe, out = build_client(c["client"], tuple(c.get("flags", ())), tap=c.get("tap", False))
     if exe is None:
         print("VIOLATION property=%s replay=%s no-failing-input-found" % (prop, path))
         return 1
@@ -582,7 +606,7 @@ def setup():
         return 1
     load_tables()
     for cname, c in COMPONENTS.items():
-        exe, out = build_client(c["client"], tuple(c.get("flags", ())))
+        exe, out = build_client(c["client"], tuple(c.get("flags", ())), tap=c.get("tap", False))
         if exe is None:
             print("client %s failed to build:\n%s" % (cname, out[-3000:]))
     print("setup ok")
